@@ -231,19 +231,72 @@ class TooManyFacts(Exception):
     pass
 
 
+def _difference_groups(keys, vs):
+    """Group the sign facts whose expressions differ by a constant: e + c_1, e + c_2, ...
+
+    The members of a group are not independent: the position of e relative to the thresholds -c_i
+    fixes every sign at once.  For an integer-valued e (anf.integer_valued) the open interval between
+    two consecutive integer thresholds that are 1 apart contains no value at all, which is what makes
+    `len(pt) < 3` and `len(pt) <= 2` the same fact."""
+    from .anf import integer_valued
+    groups: List[list] = []          # [base Rat, integer?, [(key, offset Fraction)]]
+    for k in keys:
+        if vs[k][0] != "sign":
+            continue
+        e = vs[k][1]
+        for grp in groups:
+            c = e.sub(grp[0]).is_const()
+            if c is not None:
+                grp[2].append((k, c))
+                break
+        else:
+            groups.append([e, integer_valued(e), [(k, 0)]])
+    return groups
+
+
+def _group_rows(grp):
+    """All consistent sign vectors of one difference group, as dicts key -> sign."""
+    base, integral, members = grp
+    if len(members) == 1:
+        k = members[0][0]
+        return [{k: NEG}, {k: ZERO}, {k: POS}]
+    ths = sorted({-c for _k, c in members})
+    # sample points: one per threshold, one per non-empty open interval
+    pts = [ths[0] - 1]
+    for a, b in zip(ths, ths[1:]):
+        pts.append(a)
+        all_int = all(getattr(t, "denominator", 1) == 1 for t in (a, b))
+        if not (integral and all_int and b - a <= 1):
+            pts.append((a + b) / 2 if not (integral and all_int) else a + 1)
+    pts.append(ths[-1])
+    pts.append(ths[-1] + 1)
+    rows = []
+    for x in pts:
+        row = {}
+        for k, c in members:
+            v = x + c
+            row[k] = POS if v > 0 else (NEG if v < 0 else ZERO)
+        rows.append(row)
+    return rows
+
+
 def assignments(gs: Sequence[G], limit: int = 200000):
     vs: Dict[tuple, Tuple[str, object]] = {}
     for g in gs:
         g_vars(g, vs)
     keys = list(vs)
-    doms = [(NEG, ZERO, POS) if vs[k][0] == "sign" else (False, True) for k in keys]
+    doms = [_group_rows(grp) for grp in _difference_groups(keys, vs)]
+    doms += [[{k: False}, {k: True}] for k in keys if vs[k][0] != "sign"]
     total = 1
     for d in doms:
         total *= len(d)
     if total > limit:
         raise TooManyFacts(f"{len(keys)} facts -> {total} assignments")
     for combo in itertools.product(*doms):
-        yield dict(zip(keys, combo))
+        asg = {}
+        for part in combo:
+            asg.update(part)
+        yield asg
 
 
 def g_equiv(a: G, b: G) -> bool:
